@@ -162,10 +162,10 @@ PLAN = {
     'C18': {
         'bounded': ['emoji_tables', 'phonetic_api', 'update_engine', 'fixed_api'], 'data': ['tables'],
         'level': 'proof',
-        'units': ['fixed_session', 'phon', 'rank'],
+        'units': ['fixed_session', 'phon', 'rank', 'data'],
         'technique': 'Verus: emoticon / emoji-name clauses of the assembled list, with the real zip(1..).map(closure) + extend code verified in place',
         'claim': 'Proof, for both methods, of the emoticon branch (emoji pushed with rank 1; in phonetic mode the literal text kept unless it is the transliteration itself) and of the emoji-name branch on the REAL code: every emoji the table lists for the word part (English name in phonetic mode, Bengali name in fixed mode) is appended in table order, the k-th with rank k, each wrapped in the same (curled) punctuation as every other candidate, only outside ANSI mode and only if no emoticon matched; the returned list is the (stable / unstable) sort of that assembly, so the non-emoji candidates keep their relative order (C07 / C15 lemmas); Rank::cmp is proved to order two emoji by their number, hence (lemma_c18_fixed_order) the emoji of the fixed list are in table order whatever the unstable sort does with ties, each being the k-th table emoji wrapped like the word, and the cut at nine keeps the first ones. Bounded: every Bengali name typed through a generated layout, every English name and emoticon, expected lists read from the emojicon sources independently of the engine look-ups.',
-        'note': COMMON_TRUST + 'The two five-line regions are no longer abstracted: the closure body (Rank::emoji_ranked(format!(...), r)) is verified against its ensures; the rewrites are mechanical (D14: the closure is bound to a local and its tuple pattern opened by a let, because Verus cannot quantify over an anonymous closure). Assumed (T3): std contracts for Iterator::zip / map (vstd), Vec::extend over a Map (applies the closure front to back and appends), RangeFrom<u8> yields start, start+1, ...; the emojicon tables themselves (Data look-ups) with the data precondition of fewer than 256 emoji per name.',
+        'note': COMMON_TRUST + 'The two five-line regions are no longer abstracted: the closure body (Rank::emoji_ranked(format!(...), r)) is verified against its ensures; the rewrites are mechanical (D14: the closure is bound to a local and its tuple pattern opened by a let, because Verus cannot quantify over an anonymous closure). Assumed (T3): std contracts for Iterator::zip / map (vstd), Vec::extend over a Map (applies the closure front to back and appends), RangeFrom<u8> yields start, start+1, ...; the emojicon crate (two constant tables, three look-ups: unit data proves that Data::new stores the constant tables whatever the configuration and that the three Data look-ups pass the word on unchanged to the table of the method) with the data precondition of fewer than 256 emoji per name, validated on the emojicon sources by tools/data_pre.py.',
     },
     'C19': {
         'kani': ['k_ffi_config_lifecycle', 'k_ffi_null_free', 'k_keycode_to_char'], 'miri': ['ffi_life_cycles'], 'ffi_native': ['ffi_life_cycles_native'],
@@ -182,7 +182,7 @@ NOT_YET = {}
 # external_body stubs that are only the CALLERS' view of a function whose real body is proved in another unit (against the same
 # contract text): listed in the evidence as such, not as assumptions
 PROVED_IN = {
-    'split': 'split', 'search_dictionary': 'fixed_search', 'get_words_for': 'data', 'find_suffix': 'data',
+    'split': 'split', 'search_dictionary': 'fixed_search', 'get_words_for': 'data', 'find_suffix': 'data', 'get_emoji_by_emoticon': 'data', 'get_emoji_by_name': 'data', 'get_emoji_by_bengali': 'data',
     'search_corrected': 'data (the ASCII clause is a data precondition, validated by tools/data_pre.py)',
     'process_key_value': 'fixed_pkv_off / fixed_pkv_on / fixed_pkv_common', 'insert_old_style_reph': 'fixed_reph',
     'get_char_for_key': 'layout', 'layout_get_value': 'layout_get', 'layout_get_value_numpad': 'layout_get',
